@@ -242,6 +242,7 @@ FLOWS = [
     ('Sense__iter_sense_relations', core.Sense, '_iter_sense_relations', ['*str'], {}),
     ('Sense__iter_sense_synset_relations', core.Sense, '_iter_sense_synset_relations', ['*str'], {}),
     ('Sense_translate', core.Sense, 'translate', [], {'lexicon': 'str?', 'lang': 'str?'}),
+    ('Word_translate', core.Word, 'translate', [], {'lexicon': 'str?', 'lang': 'str?'}),
     ('Synset_definition', core.Synset, 'definition', [], {}),
     ('Synset_examples', core.Synset, 'examples', [], {}),
     ('Synset_senses', core.Synset, 'senses', [], {}),
@@ -276,6 +277,8 @@ ABSTRACT = {
     'Synset_lemmas': [(core.Synset, 'words', 'list:Word'), (core.Word, 'lemma', 'obj:Form')],
     'Sense_translate': [(core.Sense, 'synset', 'obj:Synset'), (core.Synset, 'translate', 'list:Synset'),
                         (core.Synset, 'senses', 'list:Sense')],
+    'Word_translate': [(core.Word, 'senses', 'list:Sense'), (core.Sense, 'translate', 'list:Sense'),
+                       (core.Sense, 'word', 'obj:Word')],
     'Synset__iter_relations': [(core.Synset, '_iter_local_relations', 'list:pair'),
                                (core.Synset, '_iter_expanded_relations', 'list:pair')],
 }
